@@ -609,6 +609,9 @@ func (s *Server) inheritClientSession(pk packets.Packet, cl *Client) bool {
 		// Clean the state of the existing client to prevent sequential take-overs
 		// from increasing memory usage by inflights + subs * client-id.
 		s.UnsubscribeClient(existing)
+		for _, tk := range cl.State.Inflight.GetAll(false) {
+			existing.State.Inflight.Delete(tk.PacketID) // handed over to the new client above: still in flight, neither dropped nor uncounted
+		}
 		existing.ClearInflights()
 
 		s.Log.Debug("session taken over", "client", cl.ID, "old_remote", existing.Net.Remote, "new_remote", cl.Net.Remote)
